@@ -6,6 +6,7 @@ import (
 	"os"
 	"sort"
 	"strings"
+	"sync/atomic"
 	"testing"
 
 	"github.com/cloudwego/hertz/pkg/app"
@@ -187,6 +188,8 @@ type obs struct {
 	status int
 }
 
+var buildCounter int64
+
 type rig struct {
 	eng *route.Engine
 	hit int
@@ -202,6 +205,12 @@ func build(routes []string, methods []string, order []int) (r *rig, ok bool) {
 	}()
 	h := server.New()
 	r = &rig{eng: h.Engine}
+	// 0..5 engine middlewares added by separate Use calls (the handler slice of the root group then
+	// has spare capacity for some counts): every route must still run its own handler
+	nUse := int(atomic.AddInt64(&buildCounter, 1) % 6)
+	for k := 0; k < nUse; k++ {
+		h.Use(func(c context.Context, ctx *app.RequestContext) { ctx.Next(c) })
+	}
 	for _, i := range order {
 		i := i
 		h.Handle(methods[i], routes[i], func(c context.Context, ctx *app.RequestContext) {
